@@ -107,7 +107,7 @@ def make_replay(l, r):
 def go_regex(l, r):
     return r'^auto chaiscript::Boxed_Number::go<%s, %s>\(' % (DEM[l], DEM[r])
 
-NOINLINE = [r'chaiscript::const_var', r'arithmetic_error::arithmetic_error', r'bad_any_cast::bad_any_cast',
+NOINLINE = [r'chaiscript::Boxed_Number::go<', r'chaiscript::Boxed_Number::oper\(', r'chaiscript::Boxed_Value::~Boxed_Value', r'chaiscript::const_var', r'arithmetic_error::arithmetic_error', r'bad_any_cast::bad_any_cast',
             r'basic_string<.*>::basic_string<std::allocator<char> >\(char const\*']
 FAM = Family('number', 'number.cpp', noinline=NOINLINE)
 
@@ -115,8 +115,41 @@ HARD_OPS = ['product', 'quotient', 'remainder', 'assign_product', 'assign_quotie
 QUICK_TYPES = ['int32', 'uint32', 'int64', 'uint64', 'int8', 'double']
 ALL_TYPES = list(TYPES)
 
+# C++ static types the engine registers as arithmetic: Itanium typeinfo code -> common type (independent table; 0 = not arithmetic for Boxed_Number)
+CXX_TYPES = [('i', 'int32'), ('d', 'double'), ('e', 'ldouble'), ('f', 'float'), ('c', 'int8'), ('h', 'uint8'), ('j', 'uint32'), ('l', 'int64'), ('x', 'int64'), ('m', 'uint64'),
+             ('y', 'uint64'), ('a', 'int8'), ('s', 'int16'), ('t', 'uint16'), ('w', 'int32'), ('Ds', 'uint16'), ('Di', 'uint32'), ('b', None), ('NSt7__cxx1112basic_stringIcSt11char_traitsIcESaIcEEE', None)]
+
+def oper_harness(tier='quick'):
+    import os
+    syms = core.find_symbols(FAM, r'^auto chaiscript::Boxed_Number::go<')
+    rev = {v: k for k, v in DEM.items()}
+    lines = ['/* generated by props/C05.py from the IR of the current tree */', 'static int go_calls, go_l, go_r; static uint32_t go_op; static char *go_bv, *go_tlhs, *go_clhs, *go_crhs;']
+    import re
+    for m, d in syms:
+        mm = re.match(r'^auto chaiscript::Boxed_Number::go<([^,]+), ([^>]+)>', d)
+        l, r = rev[mm.group(1)], rev[mm.group(2)]
+        lines.append('void F_%s(char* sret, uint32_t op, char* bv, char* tl, char* cl, char* cr) { go_calls++; go_l = %d; go_r = %d; go_op = op; go_bv = bv; go_tlhs = tl; go_clhs = cl; go_crhs = cr; ((struct BV*)sret)->p = 0; ((struct BV*)sret)->pn = 0; }'
+                     % (core.cname(m), TYPES[l][0], TYPES[r][0]))
+    lines.append('#define NTYPES %d' % len(CXX_TYPES))
+    # arithmetic types: the very typeinfo objects the translated code compares against (one object per type, as after linking);
+    # the two non-arithmetic ones are harness objects (leading '*': compared by address, like every typeinfo in this model)
+    for code, k in CXX_TYPES:
+        if not k: lines.append('struct verif_ti tobj_%s = {0, "*%s"};' % (core.cname(code), code[:12]))
+    lines.append('static char* type_objs[NTYPES] = { %s };' % ', '.join(('(char*)&g__ZTI%s' % core.cname(c)) if k else ('(char*)&tobj_%s' % core.cname(c)) for c, k in CXX_TYPES))
+    lines.append('static const int type_common[NTYPES] = { %s };' % ', '.join(str(TYPES[k][0]) if k else '0' for _, k in CXX_TYPES))
+    def pre(workdir):
+        os.makedirs(workdir, exist_ok=True); open(os.path.join(workdir, 'c05_go_stubs.h'), 'w').write('\n'.join(lines) + '\n')
+    rx = r'^chaiscript::Boxed_Number::oper\(chaiscript::Operators::Opers, chaiscript::Boxed_Value const&, chaiscript::Boxed_Value const&\)'
+    h = Harness('A2.oper', FAM, [rx], 'c05_oper.c', stubs=[r'chaiscript::Boxed_Number::go<', r'bad_any_cast::bad_any_cast', r'chaiscript::Boxed_Value::~Boxed_Value'],
+                shapes=[dict(OPER2=core.csym(FAM, rx), LT_FIX=i, RT_FIX=j, _tag='lhs=%s,rhs=%s' % (c[:6], c2[:6]),
+                             _witness=(('witness: dispatched', 'witness: const left operand') if (k and k2) else ('witness: non-arithmetic operand',)))
+                        for i, (c, k) in enumerate(CXX_TYPES) for j, (c2, k2) in enumerate(CXX_TYPES) if tier != 'quick' or (i % 3 == j % 3) or not k or not k2],
+                opts=['--unwind', '12'], timeout=600, mem_gb=8, inputs=['lt', 'rt', 'lconst', 'lret', 'op'], note='static types of both operands symbolic over %d registered types; constness and return-value flag symbolic' % len(CXX_TYPES))
+    h.pre = pre
+    return h
+
 def harnesses(tier):
-    hs = []
+    hs = [oper_harness(tier)]
     types = QUICK_TYPES if tier == 'quick' else ALL_TYPES
     for l in types:
         for r in types:
